@@ -299,4 +299,14 @@ def sib_queue_len(ctx, prog):
 
 sib_queue_len.rule_id = "C04.SIB-queue-len"
 
-RULES = [weak_core, weak_map, rcb, cfgd, guard_bypass, rcb_user, data_swap, dom_end, sib_queue_len]
+def rcb_memoize(ctx, prog):
+    """weak_memoize_fn releases its table borrow before the memoised function runs: the function may call the
+    memoised closure recursively (RefCell already borrowed otherwise). Same rule as C20.GUARD-lookup."""
+    from .engine import run_relabelled
+    from .c20 import guard_lookup as f
+    run_relabelled(ctx, prog, f, "C20.GUARD-lookup", "C04.RCB-memoize")
+
+
+rcb_memoize.rule_id = "C04.RCB-memoize"
+
+RULES = [weak_core, weak_map, rcb, cfgd, guard_bypass, rcb_user, data_swap, dom_end, sib_queue_len, rcb_memoize]
